@@ -1,88 +1,230 @@
 """C13 - station, programme, time and aspect announcements are faithful and debounced.
-spec/Announce.tla: the network record as coded (one value per carrier, ONE shared repeat state, network id, reset on a
-  station change), WSS repeat counter; the property as separate invariants / action properties.
-MC:  Faithful, OnlyAfterRepeat, NetworkMeansChange, OneNetworkEvent, CacheKept, CacheDropped, WssOnlyAfterRepeats over all
-     interleavings of VPS / 8-30-1 / 8-30-2 / WSS receptions of known, other-known and unlisted stations; XDS name separately.
-GEN: all reception sequences ending in a distinct model state (+ all generated paths into them).
-REPLAY: harness/drv_announce.c feeds real lines through vbi_decode; events (type, network id, CNIs, PIL, time, aspect) and the
-     cached sentinel page compared after every reception."""
-import json, os, random
+spec/Announce.tla: the network record as coded (one value per carrier, ONE shared repeat state, network id, VPS label of the
+  first reception, reset on a station change incl. the withdrawn aspect ratio), WSS repeat counter, the list of registered
+  handlers with their masks (what is decoded depends on the union; newly activated types reset their part of the state);
+  the property as separate invariants / action properties.
+MC:  Faithful, OfThisReception, OnlyAfterRepeat, VpsLabelTwice, NetworkMeansChange, OneNetworkEvent, NotAgainWhileSame, StationKept,
+     CacheKept, CacheDropped, Gated, WssOnlyAfterRepeats, AspectRevertOnlyOnChange over all interleavings of VPS / 8-30-1 / 8-30-2 /
+     WSS receptions of known, other-known and unlisted stations with programme labels and times varying independently, and of
+     registrations in mid-stream; XDS name / call letters separately.
+GEN: one behaviour into every distinct model state after MaxRecv receptions.
+REPLAY: harness/drv_announce.c feeds real lines through vbi_decode and calls vbi_event_handler_register/_unregister/_add/_remove;
+     the events every handler was handed (type, order, network id, CNIs, PDC label, time, aspect) and the cached sentinel page are
+     compared after every step."""
+import json, os, random, re
 from vlib import tlc, build, core
 
 MANIFEST = dict(
     level="model_checking",
     engine="tlc-mc+replay",
-    technique="TLA+ spec Announce (network record with the shared repeat state as coded + the property as invariants/action properties) "
-              "checked exhaustively by TLC; every generated reception sequence replayed through vbi_decode with real VPS, packet 8/30 format 1/2, "
-              "XDS and WSS lines and compared event by event, incl. the cached sentinel page",
-    text="TLC explores all interleavings of up to 9 receptions on VPS, packet 8/30 format 1 and 2 and WSS (stations: two listed, one unlisted; "
-         "WSS words: two valid, one with bad parity), and of XDS network names separately, and checks that event payloads equal the transmitted "
-         "values, an identifier is announced only on a reception repeating the previous one of its carrier, a NETWORK event implies a changed "
-         "station and occurs at most once per reception, the cache is dropped exactly when the identified station changes, and WSS is announced "
-         "only with valid parity after >= 3 identical repeats and not again while unchanged. All generated sequences are replayed on the real "
-         "decoder: event types, order, network id, CNI fields, PIL/flags, local time and offset, aspect payload and the sentinel page.",
-    note="Bounded: <= 7 receptions in replay, <= 9 in MC; 3 station values per carrier; XDS (NTSC) is checked on its own because the network name "
-         "field is shared with the station table name of the PAL carriers. The station table itself is trusted (two listed Austrian stations).",
+    technique="TLA+ spec Announce (network record with the shared repeat state as coded, VPS label store, handler list with event masks and "
+              "the resets of newly activated event types + the property as invariants/action properties) checked exhaustively by TLC; one "
+              "generated behaviour into every distinct model state replayed through vbi_decode and vbi_event_handler_register/_unregister/"
+              "_add/_remove with real VPS, packet 8/30 format 1/2, XDS and WSS lines and compared event by event and handler by handler, "
+              "incl. the cached sentinel page",
+    text="TLC explores all interleavings of up to 8 receptions on VPS, packet 8/30 format 1 and 2 and WSS (stations: two listed, one unlisted; "
+         "PDC labels and local times varying independently of the CNI, damaged 8/30 payloads; WSS words: valid ones incl. two with the same "
+         "meaning, one with bad parity), of registrations / unregistrations of two handlers with different event masks in mid-stream, and of XDS "
+         "network names and call letters separately, and checks that event payloads equal the values of the reception that raised them, an "
+         "identifier is announced only on a reception repeating the previous one of its carrier, a VPS programme label only when received "
+         "before with the same CNI, a NETWORK event implies a changed station, occurs at most once per reception and never repeats the station "
+         "announced last, a registration that does not newly activate a network event type leaves station, repeat state and cache alone, the "
+         "cache is dropped exactly when the identified station changes, programme label and time are decoded for listeners only, and WSS is "
+         "announced only with valid parity after >= 3 identical repeats, not again while unchanged, and withdrawn only on a station change. "
+         "The generated behaviours are replayed on the real decoder: event types, order, receiving handler, network id, CNI fields, "
+         "PIL/PTY/PCS/LCI/LUF/PRF/MI, local time and offset, aspect payload and the sentinel page.",
+    note="Bounded: <= 9 receptions in replay (5 with the full alphabet; thorough 10 / 6), <= 11 in MC; 3 station values per carrier, 2 labels, 2 times, "
+         "2 handlers with <= 2 registrations in mid-stream; "
+         "XDS (NTSC) is checked on its own because the network name field is shared with the station table name of the PAL carriers. The "
+         "station table itself is trusted (two listed stations drawn from it). The concrete stations, PDC labels, times and WSS words depend on VERIF_SEED. "
+         "The channel switch countdown after dropped frames is part of ServiceDecoder (C01).",
 )
 
-CODE = dict(vps=dict(a=0xAC1, b=0xAC2, u=0x123), p1=dict(a=0x4301, b=0x4302, u=0x1234), p2=dict(a=0x1AC1, b=0x1AC2, u=0x5123),
-            xds=dict(a="NETA", b="NETB", u="UVW"))
+WORKERS = 8
+TYPE_ORDER = ["NETWORK", "NETWORK_ID", "PROG_ID", "LOCAL_TIME", "ASPECT", "PROG_INFO", "TTX_PAGE", "CAPTION"]
+SLOT = {"h1": 0, "h2": 1, "h3": 2}
+XDS_NAME = dict(a="NETA", b="NETB", u="UVW")
 CALL = {"a": "WAAA", "b": "KBBB", "0": ""}
-NUID = {"A": 193, "B": 194, "0": 0}
-PIL = dict(a=0x12345, b=0x2468A, u=0x3F0F0)          # any 20-bit label
-TIME = dict(a=(0x45000, 0x123456, 2), b=(0x51603, 0x213243, -7), u=(0x53735, 0x235959, 0))
-WSS = dict(x=(0x08, 0x00), y=(0x07, 0x06), bad=(0x0F, 0x00))
-ASPECT = dict(x=dict(first=23, last=310, ratio1000=1000, film=0, subt=0), y=dict(first=23, last=310, ratio1000=750, film=0, subt=3))
+CNI_TYPE_VPS, CNI_TYPE_8302, PID_CHANNEL_VPS = 1, 3, 4          # enum values of src/pdc.h / src/bcd.h
+# EN 300 294 group 1 (b0..b3, odd parity): active lines of the first field and pixel aspect of the transmitted format
+WSS_FORMAT = {0x8: (23, 310, 1000),     # 4:3 full format, 576 lines
+              0x1: (41, 292, 1000),     # 14:9 letterbox centre, 504 lines
+              0x2: (23, 274, 1000),     # 14:9 letterbox top
+              0xB: (59, 273, 1000),     # 16:9 letterbox centre, 430 lines
+              0x4: (23, 237, 1000),     # 16:9 letterbox top
+              0xD: (59, 273, 1000),     # > 16:9 letterbox centre
+              0xE: (23, 310, 1000),     # 14:9 full format, shoot and protect
+              0x7: (23, 310, 750)}      # 16:9 full format (anamorphic)
+ASPECT_DEFAULT = dict(first=23, last=310, ratio1000=1000, film=0, subt=3)
 
 
 def bcd(x, n):
     return sum(((x >> (4 * i)) & 15) * 10 ** i for i in range(n))
 
 
-def line_of(act):
-    if act["a"] == "Refill":
+def tobcd(x, n):
+    return sum(((x // 10 ** i) % 10) << (4 * i) for i in range(n))
+
+
+def station_table():
+    """rows (id, 8/30-1 code, 8/30-2 code, VPS code) of the station table of the tree under test (trusted)"""
+    rows = []
+    path = os.path.join(os.environ.get("VERIF_REPO", "/repo"), "src", "network-table.h")
+    for ln in open(path, encoding="latin-1"):
+        m = re.match(r'\s*\{\s*(\d+),\s*"[^"]*",\s*"[^"]*",\s*0x([0-9A-Fa-f]+),\s*0x([0-9A-Fa-f]+),\s*0x([0-9A-Fa-f]+),\s*0x([0-9A-Fa-f]+)\s*\}', ln)
+        if m:
+            rows.append((int(m.group(1)), int(m.group(2), 16), int(m.group(3), 16), int(m.group(5), 16)))
+    return rows
+
+
+class Values:
+    """what the stations transmit for the symbols of the model - the transmitter; drawn from the seed"""
+
+    def stations(self, rng):
+        """a, b: two listed stations that have a code of their own on every carrier; u: codes no station has"""
+        rows = station_table()
+        n1, n2, n4, nid = ({}, {}, {}, {})
+        for i, c1, c2, c4 in rows:
+            n1[c1] = n1.get(c1, 0) + 1; n2[c2] = n2.get(c2, 0) + 1; n4[c4] = n4.get(c4, 0) + 1
+            nid[i] = nid.get(i, 0) + 1
+        shared = {0xDC1, 0xDC2, 0xDC3}           # ARD / ZDF share a VPS code, told apart by another bit
+        cand = [r for r in rows if r[1] and r[3] and n1[r[1]] == 1 and n4[r[3]] == 1 and r[3] not in shared
+                and (r[2] == 0 or n2[r[2]] == 1)]
+        if len(cand) < 2:
+            raise tlc.ToolFailure("station table: no two stations with codes on all carriers")
+        a, b = rng.sample(cand, 2)
+        while a[0] == b[0]:
+            a, b = rng.sample(cand, 2)
+
+        def p2code(r):
+            if r[2]:
+                return r[2]              # the station's own 8/30 format 2 code
+            while True:                  # else its VPS code behind any country nibble (looked up by the low 12 bits)
+                c = (rng.randrange(1, 16) << 12) | r[3]
+                if c not in n2:
+                    return c
+
+        def unlisted(bits, *used):
+            while True:
+                c = rng.randrange(1, 1 << bits)
+                if all(c not in u for u in used) and (c & 0xFFF) not in shared:
+                    return c
+        u2 = unlisted(16, n2)
+        while (u2 & 0xFFF) in n4:
+            u2 = unlisted(16, n2)
+        self.code = dict(vps=dict(a=a[3], b=b[3], u=unlisted(12, n4)), p1=dict(a=a[1], b=b[1], u=unlisted(16, n1)),
+                         p2=dict(a=p2code(a), b=p2code(b), u=u2), xds=XDS_NAME)
+        self.nuid = {"A": a[0], "B": b[0], "0": 0}
+
+    def __init__(self, seed):
+        rng = random.Random(seed * 7919 + 13)
+        self.stations(rng)
+
+        def label():
+            return dict(pil=rng.getrandbits(20), pty=rng.getrandbits(8), pcs=rng.randrange(4), lci=rng.randrange(4), luf=rng.randrange(2),
+                        prf=rng.randrange(2), mi=rng.randrange(2))
+        p = label()
+        q = dict(p)                     # q differs from p in ONE field that VPS and 8/30-2 both carry
+        f = rng.choice(["pil", "pil", "pty", "pcs"])
+        if f == "pil":
+            q["pil"] = p["pil"] ^ (1 << rng.randrange(20))
+        elif f == "pty":
+            q["pty"] = p["pty"] ^ (1 << rng.randrange(8))
+        else:
+            q["pcs"] = (p["pcs"] + 1 + rng.randrange(3)) % 4
+        r = label()
+        self.label = dict(p=p, q=q, r=r)
+
+        def atime(sign):
+            mjd = rng.randrange(40587, 99999)
+            utc = (rng.randrange(24), rng.randrange(60), rng.randrange(60))
+            lto = sign * rng.randrange(1, 32) if sign else 0
+            return dict(mjd=mjd, utc=utc, lto=lto)
+        self.time = dict(t=atime(1), s=atime(-1))       # east and west of Greenwich
+
+        def word(fmt):
+            film, subt = rng.randrange(2), rng.randrange(4)
+            b0 = fmt | (film << 4) | (rng.randrange(8) << 5)
+            b1 = rng.randrange(2) | (subt << 1) | (rng.randrange(8) << 3)
+            f0, f1, ratio = WSS_FORMAT[fmt]
+            return (b0, b1), dict(first=f0, last=f1, ratio1000=ratio, film=film, subt=subt)
+        fx, fy, fz = rng.sample(sorted(WSS_FORMAT), 3)
+        self.wss, self.aspect = {}, {}
+        for sym, fmt in (("x", fx), ("y", fy), ("z", fz)):
+            self.wss[sym], self.aspect["a" + sym] = word(fmt)
+        b0, b1 = self.wss["x"]          # x2: the same meaning, other reserved bits
+        self.wss["x2"] = rng.choice([(b0 ^ 0x20, b1), (b0 ^ 0xC0, b1 ^ 0x08), (b0, b1 ^ 0x31)])
+        self.wss["bad"] = (self.wss["y"][0] ^ (1 << rng.randrange(4)), self.wss["y"][1])
+        self.aspect["adefault"] = ASPECT_DEFAULT
+
+    def time_args(self, l):
+        if l == "bad":                  # a digit that is not BCD
+            t = self.time["t"]
+            return "%x %x %d" % (tobcd(t["mjd"], 5), 0x1A3456, t["lto"])
+        t = self.time[l]
+        h, m, s = t["utc"]
+        return "%x %x %d" % (tobcd(t["mjd"], 5), (tobcd(h, 2) << 16) | (tobcd(m, 2) << 8) | tobcd(s, 2), t["lto"])
+
+
+def mask_str(m):
+    return "|".join(t for t in TYPE_ORDER if t in m) or "0"
+
+
+def line_of(act, val):
+    a = act["a"]
+    if a == "Init":
+        return "H r 0 %s" % mask_str(act["m"])
+    if a == "Register":
+        return "H %s %d %s" % ("a" if act["api"] == "add" else "r", SLOT[act["h"]], mask_str(act["m"]))
+    if a == "Unregister":
+        return "H %s %d 0" % ("a" if act["api"] == "add" else "r", SLOT[act["h"]])
+    if a == "Refill":
         return "T"
-    if act["a"] == "Call":
+    if a == "Call":
         return "L %s" % CALL[act["v"]]
-    if act["a"] == "Wss":
-        return "W %02x %02x" % WSS[act["w"]]
-    c, v = act["c"], act["v"]
+    if a == "Wss":
+        return "W %02x %02x" % val.wss[act["w"]]
+    c, v, l = act["c"], act["v"], act["l"]
     if c == "vps":
-        return "V %x %x" % (CODE[c][v], PIL[v])
+        lb = val.label[l]
+        return "V %x %x %x %x" % (val.code[c][v], lb["pil"], lb["pty"], lb["pcs"])
     if c == "p1":
-        m, u, l = TIME[v]
-        return "1 %x %x %x %d" % (CODE[c][v], m, u, l)
+        return "1 %x %s" % (val.code[c][v], val.time_args(l))
     if c == "p2":
-        return "2 %x %x" % (CODE[c][v], PIL[v])
-    return "N %s" % CODE[c][v]
+        lb = val.label["p" if l == "bad" else l]
+        return "2 %x %x %x %x %x %x %x %x%s" % (val.code[c][v], lb["pil"], lb["lci"], lb["luf"], lb["prf"], lb["pcs"], lb["mi"], lb["pty"],
+                                              " x" if l == "bad" else "")
+    return "N %s" % val.code[c][v]
 
 
-def expect(st, xmap):
+def expect(st, val):
     """model events -> the fields the driver prints"""
     out = []
     for e in st["evs"]:
-        t, c, v = e["t"], e["c"], e["v"]
+        t, c, v, l = e["t"], e["c"], e["v"], e["l"]
+        o = dict(h=SLOT[e["h"]], t=t)
         if t in ("NETWORK", "NETWORK_ID"):
-            o = dict(t=t)
             if c == "xds":
                 o["nuid_sym"] = e["nuid"]
-                o["name"] = CODE[c][v]
+                o["name"] = val.code[c][v]
                 o["call"] = CALL[e.get("call", "0")]
             else:
-                o["nuid"] = NUID[e["nuid"]]
-                o[{"vps": "cni_vps", "p1": "cni_8301", "p2": "cni_8302"}[c]] = CODE[c][v]
-            out.append(o)
+                o["nuid"] = val.nuid[e["nuid"]]
+                o[{"vps": "cni_vps", "p1": "cni_8301", "p2": "cni_8302"}[c]] = val.code[c][v]
         elif t == "PROG_ID":
+            lb = val.label[l]
             if c == "vps":
-                out.append(dict(t=t, cni=CODE[c][v], pil=PIL[v], ch=4, pcs=2, pty=0x42))
+                o.update(cni_type=CNI_TYPE_VPS, cni=val.code[c][v], pil=lb["pil"], ch=PID_CHANNEL_VPS, luf=0, mi=1, prf=0, pcs=lb["pcs"], pty=lb["pty"])
             else:
-                out.append(dict(t=t, cni=CODE[c][v], pil=PIL[v], ch=1, luf=0, mi=1, prf=1, pcs=2, pty=0x42))
+                o.update(cni_type=CNI_TYPE_8302, cni=val.code[c][v], pil=lb["pil"], ch=lb["lci"], luf=lb["luf"], mi=lb["mi"], prf=lb["prf"],
+                         pcs=lb["pcs"], pty=lb["pty"])
         elif t == "LOCAL_TIME":
-            m, u, l = TIME[v]
-            secs = bcd(u >> 16, 2) * 3600 + bcd((u >> 8) & 0xFF, 2) * 60 + bcd(u & 0xFF, 2)
-            out.append(dict(t=t, time=(bcd(m, 5) - 40587) * 86400 + secs, east=l * 1800))
+            tm = val.time[l]
+            h, m, s = tm["utc"]
+            o.update(time=(tm["mjd"] - 40587) * 86400 + h * 3600 + m * 60 + s, east=tm["lto"] * 1800, east_valid=1)
         elif t == "ASPECT":
-            o = dict(t=t); o.update(ASPECT[v]); out.append(o)
+            o.update(val.aspect[e["asp"]])
+        out.append(o)
     return out
 
 
@@ -90,90 +232,152 @@ def matches(exp, got, xmap):
     if len(exp) != len(got):
         return False
     for e, g in zip(exp, got):
-        for k, val in e.items():
+        for k, v in e.items():
             if k == "nuid_sym":
                 n = g.get("nuid")
                 if n == 0 or not (n & (1 << 30)):
                     return False
-                if xmap.setdefault(val, n) != n or sum(1 for x in xmap.values() if x == n) != 1:
+                if xmap.setdefault(v, n) != n or sum(1 for x in xmap.values() if x == n) != 1:
                     return False
-            elif g.get(k) != val:
+            elif g.get(k) != v:
                 return False
     return True
 
 
-def run_set(ctx, drv, behs, label):
-    scripts = [["T"] + [line_of(st["act"]) for st in b] for b in behs]
-    chunks = [list(range(k, len(behs), 16)) for k in range(16)]
+def script_of(b, val):
+    """the Init step registers handler h1 and, if Teletext is decoded, is followed by the sentinel page"""
+    s = [line_of(b[0]["act"], val)]
+    if "TTX_PAGE" in b[0]["act"]["m"]:
+        s.append("T")
+    return s + [line_of(st["act"], val) for st in b[1:]]
+
+
+def compare(b, got, val):
+    xmap = {}
+    skip = 1 if "TTX_PAGE" in b[0]["act"]["m"] else 0          # answer to the initial T
+    if len(got) < len(b) + skip:
+        return (len(got), "diverge:crash", "driver stopped")
+    got = got[skip:]                 # got[0]: the state after the registration of h1 (and the sentinel page), got[n]: after step n
+    for n, st in enumerate(b):
+        e = expect(st, val)
+        g = got[n]
+        act = st["act"]
+        name = act.get("c", act["a"])
+        if not matches(e, g["evs"], xmap):
+            et = [x["t"] for x in e]; gt = [x["t"] for x in g["evs"]]
+            eh = [x["h"] for x in e]; gh = [x["h"] for x in g["evs"]]
+            kind = "events" if et != gt else "handlers" if eh != gh else "payload"
+            return (n, "diverge:%s:%s:%s" % (name, kind, "+".join(gt) or "none"),
+                    "spec predicts %s, real decoder raised %s" % (e, g["evs"]))
+        if bool(g["cached"]) != st["cache"]:
+            return (n, "diverge:%s:cache" % name,
+                    "spec: sentinel page %s, real: cached=%s" % ("kept" if st["cache"] else "dropped", g["cached"]))
+    return None
+
+
+def interesting(b):
+    """does the behaviour exercise the property: an announcement, a suppressed one or a registration between receptions"""
+    return any(st["evs"] or st["raised"] for st in b) or any(st["act"]["a"] in ("Register", "Unregister") for st in b)
+
+
+def run_set(ctx, drv, behs, label, val):
+    scripts = [script_of(b, val) for b in behs]
+    chunks = [list(range(k, len(behs), WORKERS)) for k in range(WORKERS)]
 
     def job(idx):
         return (idx, core.run_seq_driver([drv], [scripts[i] for i in idx], env=build.san_env())) if idx else (idx, [])
-    for idx, res in core.pmap(job, chunks):
+    for idx, res in core.pmap(job, chunks, workers=WORKERS):
         for j, i in enumerate(idx):
             r, b = res[j], behs[i]
             if r.get("skipped"):
                 continue
-            rp = dict(script=scripts[i], beh=b)
-            ctx.count_case(scripts[i], nontrivial=any(st["evs"] for st in b))
+            rp = dict(script=scripts[i], beh=b, seed=ctx.seed)
+            ctx.count_case(scripts[i], nontrivial=interesting(b))
             if r["stderr"]:
                 core.report_sanitizers(ctx, r["stderr"], replay=rp, in_scope=False)
-            bad = compare(b, r["lines"])
+            bad = compare(b, r["lines"], val)
             if bad is None:
                 ctx.validated()
             else:
                 n, key, why = bad
-                ctx.violate("replay", key, "reception %d of %s: %s" % (n + 1, [st["act"] for st in b], why), rp)
+                ctx.violate("replay", key, "step %d of %s: %s" % (n, [st["act"] for st in b], why), rp)
     if behs:
         m = len(behs) // 2
         ctx.sample(dict(source=label, script=scripts[m], expected=[dict(evs=st["evs"], cache=st["cache"]) for st in behs[m]]))
 
 
-def compare(b, got):
-    xmap = {}
-    got = got[1:]          # answer to the initial T
-    if len(got) < len(b):
-        return (len(got), "diverge:crash", "driver stopped")
-    for n, st in enumerate(b):
-        e = expect(st, xmap)
-        g = got[n]
-        if not matches(e, g["evs"], xmap):
-            act = st["act"]
-            et = [x["t"] for x in e]; gt = [x["t"] for x in g["evs"]]
-            kind = "events" if et != gt else "payload"
-            return (n, "diverge:%s:%s:%s" % (act.get("c", act["a"]), kind, "+".join(gt) or "none"),
-                    "spec predicts %s, real decoder raised %s" % (e, g["evs"]))
-        if bool(g["cached"]) != st["cache"]:
-            return (n, "diverge:%s:cache" % st["act"].get("c", st["act"]["a"]),
-                    "spec: sentinel page %s, real: cached=%s" % ("kept" if st["cache"] else "dropped", g["cached"]))
-    return None
+# (the generator runs are model checking runs too: the same invariants and action properties are checked there)
+MC_CFG = dict(quick=["MC_Announce_h", "MC_Announce_xds"],
+              thorough=["MC_Announce_t", "MC_Announce_ht", "MC_Announce_wt", "MC_Announce_xds"])
+GEN_CFG = dict(quick=["Gen_Announce_q", "Gen_Announce_h", "Gen_Announce_h1", "Gen_Announce_w", "Gen_Announce_xds"],
+               thorough=["Gen_Announce_t", "Gen_Announce_ht", "Gen_Announce_h1", "Gen_Announce_wt", "Gen_Announce_xdst"])
 
 
 def run(ctx):
-    quick = ctx.tier == "quick"
-    ctx.cov["rule"] = ("cases = reception sequences generated from the Announce model, replayed on the real decoder; distinct by driver script; "
-                       "non-trivial = at least one event is predicted")
-    ctx.assumptions += ["the station table (src/network-table.h) is trusted", "timestamps advance by one frame per reception (no frame dropping)"]
+    val = Values(ctx.seed)
+    ctx.cov["rule"] = ("cases = behaviours (receptions and registrations) generated from the Announce model, one into every distinct model state "
+                       "at the reception bound, replayed on the real decoder; distinct by driver script; non-trivial = an event is raised or a "
+                       "handler is registered / unregistered in mid-stream")
+    ctx.assumptions += ["the station table (src/network-table.h) is trusted", "timestamps advance by one frame per reception (no frame dropping; "
+                        "the countdown after dropped frames is modelled in ServiceDecoder, C01)",
+                        "the VPS and packet 8/30 encoders (C12) are trusted as transmitter"]
     drv = build.build_driver("drv_announce")
-    for cfg in (["MC_Announce_q", "MC_Announce_xds"] if quick else ["MC_Announce_t", "MC_Announce_xds"]):
-        r = tlc.run("Announce", cfg, timeout=1500, coverage=not quick, heap="12g")
-        ctx.add_mc(r, cfg)
-        if r.violation:
-            ctx.violate("mc", "mc:%s:%s" % (r.violation["kind"], r.violation["name"]), r.violation["text"][:3000])
-    for cfg in (["Gen_Announce_q", "Gen_Announce_xds"] if quick else ["Gen_Announce_q", "Gen_Announce_xds", "Gen_Announce_t"]):
-        g = tlc.run("Gen_Announce", cfg, timeout=1500, collect_tr=True, heap="12g")
-        if g.violation:
-            raise tlc.ToolFailure("GEN run reported " + str(g.violation))
-        ctx.add_mc(g, "GEN " + cfg)
-        run_set(ctx, drv, g.tr, cfg)
+
+    # two TLC runs at a time with 4 workers each (<= 8 workers)
+    def tlc_job(job):
+        kind, cfg = job
+        if kind == "mc":
+            return tlc.run("Announce", cfg, timeout=1700, workers=WORKERS // 2, coverage=(ctx.tier != "quick"), heap="6g")
+        return tlc.run("Gen_Announce", cfg, timeout=1700, workers=WORKERS // 2, collect_tr=True, heap="6g")
+    jobs = [("mc", c) for c in MC_CFG[ctx.tier]] + [("gen", c) for c in GEN_CFG[ctx.tier]]
+    sets = []
+    for (kind, cfg), r in zip(jobs, core.pmap(tlc_job, jobs, workers=2)):
+        if kind == "mc":
+            ctx.add_mc(r, cfg)
+            if r.violation:
+                ctx.violate("mc", "mc:%s:%s" % (r.violation["kind"], r.violation["name"]), r.violation["text"][:3000])
+        else:
+            if r.violation:          # the generator runs check the property too
+                ctx.violate("mc", "mc:%s:%s" % (r.violation["kind"], r.violation["name"]), r.violation["text"][:3000])
+                continue
+            if not r.tr:
+                raise tlc.ToolFailure("GEN run %s produced no behaviour" % cfg)
+            ctx.add_mc(r, "GEN " + cfg)
+            sets.append((cfg, r.tr))
+    for cfg, tr in sets:
+        run_set(ctx, drv, tr, cfg, val)
     ctx.cov["exhaustive"] = True
 
 
 def replay(ctx, rp):
     drv = build.build_driver("drv_announce")
     r = rp["replay"]
+    val = Values(r.get("seed", ctx.seed))
     res = core.run_seq_driver([drv], [r["script"]], env=build.san_env())[0]
     for l, g in zip(r["script"], res["lines"]):
         print(l, "->", g)
-    bad = compare(r["beh"], res["lines"])
+    bad = compare(r["beh"], res["lines"], val)
     if bad:
         ctx.violate("replay", bad[1], bad[2], r)
+
+
+def selftest(ctx):
+    """a corrupted expectation must be rejected: one field of one generated behaviour is changed"""
+    val = Values(ctx.seed)
+    drv = build.build_driver("drv_announce")
+    g = tlc.run("Gen_Announce", "Gen_Announce_xds", timeout=600, workers=WORKERS, collect_tr=True, heap="4g")
+    b = next(x for x in g.tr if any(st["evs"] for st in x))
+    res = core.run_seq_driver([drv], [script_of(b, val)], env=build.san_env())[0]
+    if compare(b, res["lines"], val) is not None:
+        print("selftest: the unchanged behaviour is rejected"); return 1
+    bad = json.loads(json.dumps(b))
+    st = next(s for s in bad if s["evs"])
+    st["evs"][0]["t"] = "NETWORK_ID" if st["evs"][0]["t"] == "NETWORK" else "NETWORK"
+    if compare(bad, res["lines"], val) is None:
+        print("selftest: corrupted expectation accepted"); return 1
+    bad = json.loads(json.dumps(b))
+    bad[-1]["cache"] = not bad[-1]["cache"]
+    if compare(bad, res["lines"], val) is None:
+        print("selftest: corrupted cache expectation accepted"); return 1
+    print("selftest: corrupted expectations rejected")
+    return 0
